@@ -1,5 +1,6 @@
 extern crate iceoryx2_bb_loggers;
 mod common;
+mod c15_alloc;
 mod c16_vec;
 mod c16_queue;
 mod c16_slotmap;
@@ -31,6 +32,7 @@ fn main() {
         }};
     }
     match comp {
+        "alloc" => go!(c15_alloc::generate, || c15_alloc::AllocComp::new()),
         "vec" => go!(c16_vec::generate, || c16_vec::VecComp::new()),
         "queue" => go!(c16_queue::generate, || c16_queue::QueueComp::new()),
         "string" => go!(c16_string::generate, || c16_string::StrComp::new()),
